@@ -1106,6 +1106,11 @@ class Frame:
                 return T.index(('idx', tb, k), b[2])
             return ('idx', b, k)
         if b[0] == 'indexer':
+            if k[0] == 'tuple' and len(k[1]) == 2 and b[2][0] == 'table' and k[1][0] == ('sl', NONE, NONE, NONE):
+                cm = T.strip_nd(k[1][1])
+                if cm[0] in ('list', 'tuple') and len(cm[1]) == len(b[2][1]) and all(T.isconst(e) and isinstance(e[1], bool) for e in cm[1]):
+                    # df.loc[:, mask] / df.iloc[:, mask]: the columns whose flag is set, all rows
+                    return ('table', tuple(cv for cv, e in zip(b[2][1], cm[1]) if e[1]), b[2][2])
             if k[0] == 'tuple' and len(k[1]) == 2:
                 return T.call('cell', (b[2], k[1][0], k[1][1]), {'how': C(b[1])})
             if b[2][0] == 'table':       # positional / boolean row selection keeps the columns
